@@ -1075,6 +1075,7 @@ type bgRun struct {
 	clientErrs atomic.Int64
 	wrong      atomic.Int64
 	loadN      atomic.Int64
+	extra      int // keys the client load adds (the counter it increments)
 }
 
 func startBg(dir, name string, opts *redka.Options, total int, expired func(i int) bool) (*bgRun, error) {
@@ -1103,6 +1104,7 @@ func startBgLoad(dir, name string, opts *redka.Options, total int, expired func(
 	if !load {
 		return b, nil
 	}
+	b.extra = 1
 	b.wg.Add(1)
 	go func() {
 		defer b.wg.Done()
@@ -1137,7 +1139,7 @@ func (b *bgRun) finish(limit time.Duration) {
 		rc, err := rowCounts(b.x)
 		if err == nil {
 			last = rc
-			if rc["rkey"] <= b.live+1 {
+			if rc["rkey"] <= b.live+b.extra {
 				reclaimedAt = time.Since(b.opened)
 				break
 			}
@@ -1149,7 +1151,7 @@ func (b *bgRun) finish(limit time.Duration) {
 	sum.Cases++
 	if reclaimedAt == 0 {
 		fail("c20-not-reclaimed", fmt.Sprintf("%s: of %d expired keys %d were still stored %d s after opening the handle (documented: reclaimed within one minute); %d live keys",
-			b.name, b.dead, last["rkey"]-b.live-1, int(limit.Seconds()), b.live), nil)
+			b.name, b.dead, last["rkey"]-b.live-b.extra, int(limit.Seconds()), b.live), nil)
 	} else {
 		count(fmt.Sprintf("reclaimed_after_%ds", int(reclaimedAt.Seconds())/10*10))
 	}
@@ -1160,8 +1162,8 @@ func (b *bgRun) finish(limit time.Duration) {
 		fail("c20-disturbed", fmt.Sprintf("%s: %d client operations returned a wrong result while the reclamation ran", b.name, b.wrong.Load()), nil)
 	}
 	rc, _ := rowCounts(b.x)
-	if reclaimedAt != 0 && rc["rkey"] != b.live+1 {
-		fail("c20-live-touched", fmt.Sprintf("%s: %d key rows after the reclamation, %d keys are live", b.name, rc["rkey"], b.live+1), nil)
+	if reclaimedAt != 0 && rc["rkey"] != b.live+b.extra {
+		fail("c20-live-touched", fmt.Sprintf("%s: %d key rows after the reclamation, %d keys are live", b.name, rc["rkey"], b.live+b.extra), nil)
 	}
 	audit, _ := hx.AuditAndContinue(b.x, &hx.History{ID: 1})
 	if audit != "ok" {
@@ -1299,7 +1301,7 @@ func runC20(seed int64, n int, long bool) {
 	time.Sleep(time.Until(bgD.opened.Add(68 * time.Second)))
 	_, _ = bgD.x.Raw.Exec("ROLLBACK")
 	rc, _ := rowCounts(bgD.x)
-	if rc["rkey"] <= bgD.live+1 {
+	if rc["rkey"] <= bgD.live {
 		count("failed_tick_not_provoked") // the tick got through before the lock: nothing learnt
 	}
 	bgD.finish(135 * time.Second)
